@@ -159,6 +159,62 @@ class Repo:
         self.by_class_name = {}  # bare class name -> [ClassInfo]
         self._load()
         self._index()
+        self.keyword_calls_normalized = self._positional_arguments()
+
+    def _positional_arguments(self):
+        """Canonical argument form: `f(path=p, text=t)` and `f(p, t)` are the same call.  For every call whose callee
+        resolves to a function, a method reached through `self`, or a class of the repository, leading keyword
+        arguments that name the next positional parameters are moved into positional position (in the analysed copy)."""
+        if os.environ.get("HSA_NO_NORMALIZE"):
+            return 0
+        n = 0
+        for m in self.modules.values():
+            for node in ast.walk(m.tree):
+                if not isinstance(node, ast.Call) or not node.keywords:
+                    continue
+                if any(isinstance(a, ast.Starred) for a in node.args) or any(k.arg is None for k in node.keywords):
+                    continue
+                fi = self.enclosing_function(node)
+                tgt, skip = None, 0
+                try:
+                    tgt = self.resolve_name_expr(node.func, m, fi)
+                except Exception:
+                    tgt = None
+                if tgt is None and isinstance(node.func, ast.Attribute) and isinstance(node.func.value, ast.Name) and \
+                        node.func.value.id == "self" and fi is not None:
+                    top = fi
+                    while top.outer is not None:
+                        top = top.outer
+                    if top.cls is not None:
+                        tgt = top.cls.lookup(node.func.attr)
+                        skip = 1
+                if isinstance(tgt, ClassInfo):
+                    tgt = tgt.lookup("__init__")
+                    skip = 1
+                if not isinstance(tgt, FunctionInfo):
+                    continue
+                a = tgt.node.args
+                if a.vararg is not None or a.posonlyargs:
+                    continue
+                decos = [ast.unparse(d) for d in tgt.node.decorator_list]
+                if "staticmethod" in decos:
+                    skip = 0
+                elif tgt.cls is not None and tgt.outer is None and skip == 0 and not isinstance(node.func, ast.Name):
+                    # Class.method(...) / module-level instance method: receiver is bound or explicit - only handle the
+                    # bound form (resolve_name_expr returns methods of module-level instances, e.g. ut.random.choice)
+                    skip = 1
+                params = [x.arg for x in a.args][skip:]
+                kws = {k.arg: k for k in node.keywords}
+                i = len(node.args)
+                moved = False
+                while i < len(params) and params[i] in kws:
+                    k = kws.pop(params[i])
+                    node.args.append(k.value)
+                    node.keywords.remove(k)
+                    i += 1
+                    moved = True
+                n += moved
+        return n
 
     # -- loading ---------------------------------------------------------
     def _load(self):
